@@ -210,9 +210,13 @@ SockMon(g0, e) ==
               IF stopped THEN {} ELSE Chk("C19.connect", e.s, e.ok),
               Hit("C19.connect", ~stopped) \cup Hit("C19.cli", e.cli) \cup Hit("C19.concurrent", Cardinality(Open(g.st)) >= 1))
     [] e.e = "reply" ->
-         MOut(g, (IF stopped THEN {} ELSE Chk("C19.reply", e.s, e.got))
+         (* a client - raw or the bundled CLI - is served: it gets a reply, and for the concrete lines whose method call
+            the harness can make itself, exactly the reply that call gives (the reply rule of C17, now over a real transport) *)
+         MOut(g, (IF stopped THEN {} ELSE Chk("C19.reply", e.s, e.got) \cup Chk("C19.same", e.s, ~e.got \/ e.same))
                  \cup (IF e.cls \in Malformed THEN Chk("C19.pool", e.s, e.pobs = e.before) ELSE {}),
               Hit("C19.reply", ~stopped) \cup Hit("C19.concurrent", Cardinality(Open(g.st)) >= 2))
+    [] e.e = "handshook" ->      \* a raw client that had connected without a handshake sends it later (handshakes may overlap)
+         MOut(g, IF stopped THEN {} ELSE Chk("C19.connect", e.s, e.ok), Hit("C19.overlap", Cardinality(Open(g.st)) >= 2))
     [] e.e = "disconnected" ->
          MOut([g EXCEPT !.st.ss[e.s].ph = "gone"],
               Chk("C19.disconnect", e.s, e.pobs = e.before /\ (e.clean \/ stopped)),     \* (after the stop the server may hang up first)
